@@ -5,6 +5,15 @@ ROOT = os.path.dirname(os.path.dirname(os.path.abspath(__file__)))
 props = [json.loads(l) for l in open(os.path.join(ROOT, 'properties.jsonl'))]
 T_ENUM = 'bounded-exhaustive enumeration of inputs/programs run on the real code against an independent oracle (stateless model checking, sequential form)'
 built = {
+ 'C01': dict(cat='exploration', ref='DESIGN.md §4 C01', tech='bounded-exhaustive enumeration of programs, each run on the real pipeline and on an independent reference semantics (differential, stateless model checking in sequential form)',
+   text='Every program of three completely enumerated spaces (all ordered forests of <= 3 control constructs over 15 kinds with trace statements, at module level and inside a SUB; every binary/unary operator x operand types x value menu x 9 contexts; every DATA/READ sequence of <= 2-3 items x admissible variable types x placements) is printed from a generator AST, executed by the real parser/linter/generator/VM and by a hand-written reference semantics; stdout and the end state (error code and row) must agree.',
+   note='The reference semantics is hand-written from the language definition and restricted to the exact numeric domain (restrictions R1-R22 in DESIGN.md); cases it does not decide are counted, not judged.'),
+ 'C02': dict(cat='exploration', ref='DESIGN.md §4 C02', tech='bounded-exhaustive metamorphic testing: every rewrite rule at every site of every enumerated program, implementation compared with itself',
+   text='Every control-composition program (<= 2 nodes in quick, 3 in thorough) is rewritten by 7 meaning-preserving AST rewrites at every applicable site alone and at all sites; original and rewritten text must print the same and end the same way on the real pipeline.',
+   note='Rewrites are correct by construction on the generated subset (integer counters and SELECT subjects, non-zero steps); no reference semantics involved.'),
+ 'C06': dict(cat='exploration', ref='DESIGN.md §4 C06', tech='bounded-exhaustive enumeration of boundary lattices x delivery routes, differential against the reference semantics plus an in-VM typed-variable monitor',
+   text='For every ordered pair of numeric types every value of the target type boundary lattice is delivered through 9 routes (assignment, array element, record field, by-value parameter, FUNCTION result, FOR start+increment, READ, INPUT, FOR limit) as literal and as typed variable; + - * / MOD and unary minus on all pairs of the INTEGER and LONG boundary lattices; judged by the reference semantics (value or Overflow 6 at the right row) and by a monitor in the VM that checks at every statement start that every variable holds a value of its own type and range.',
+   note='Ties x.5 excluded (R1); quotients with a LONG operand (R21) and near-whole quotients (R22, known finding) are not judged.'),
  'C07': dict(cat='exploration', ref='DESIGN.md §4 C07', tech=T_ENUM,
    text='Every text of several completely enumerated spaces (token soups over the lexer alphabet up to length 3/4, statement templates x operand menu, every single token-level edit of accepted harvested programs, hostile characters at every token boundary, nesting ladders to depth 200/300) goes through the real parse_main_str + lint in crash-isolated workers; oracle = returns a program or an error located inside the text; panic, crash and hang are violations.',
    note='Totality and position bounds only, not the choice of error; nesting beyond 300 levels and texts outside the enumerated spaces are not covered.'),
